@@ -33,6 +33,7 @@ USER_STYLE = {   # C11: binary operators include + and *, unary subsets incl. cu
     "verif_nosub": [["x", "a"], ["inv", "square", "log_abs", "exp"], ["+", "*"]],
     "verif_sqrt": [["x", "a"], ["sqrt_abs", "square", "cube"], ["+", "*", "-", "/"]],
     "verif_div": [["x", "a"], ["inv", "log_abs", "exp", "sqrt_abs"], ["+", "*", "/", "pow"]],
+    "verif_ax": [["a", "x"], ["inv", "exp"], ["+", "*", "-"]],        # nullary symbols listed the other way round
 }
 
 
